@@ -342,10 +342,17 @@ example : alignedNormal (SI.new 4 3 13 6) (SI.new 4 2 1 7) ∧ (SI.new 4 3 13 6)
 
 /-! ## mod (unsigned remainder) — through `udiv` of the pieces, `mul` and `sub`; divisor aligned -/
 
-/-- `__mod__` is sound and closed when the divisor is aligned (division by zero exempt: claripy raises there).  Per pair of
-non-wrapping pieces either the quotients are one value `k` and the remainder is `p - k*t` (`mul` on `{k}` and the divisor's
-piece needs that piece aligned), or the remainder is below the divisor's upper bound. -/
-theorem C21_mod_sound (a b r : SI) (ha : a.WF) (hb : b.WF) (hbits : a.bits = b.bits) (hab : a.bottom = false)
+/-- full statement: `__mod__` is sound for all well-formed operands (division by zero exempt: claripy raises there) -/
+def C21_mod_full : Prop :=
+  ∀ (a b r : SI) (x y : Nat), a.WF → b.WF → a.bits = b.bits → a.mem x → b.mem y → y ≠ 0 → a.mod b = .ok r →
+    r.mem (Conc.urem a.bits x y)
+
+/-- PARTIAL: `__mod__` is sound and closed when the DIVISOR IS ALIGNED.  Per pair of non-wrapping pieces either the quotients
+are one value `k` and the remainder is `p - k*t` (`mul` on `{k}` and the divisor's piece — `mul_sound` needs that piece
+aligned), or the remainder is below the divisor's upper bound.  Missing for `C21_mod_full`: the case of a divisor whose upper
+bound is not a member (it needs `{k} * t` for an unaligned piece `t`; exhaustive search at widths ≤ 3 and 300 k sampled pairs
+at width 4 on the real code found no counterexample, so the full statement is probably true). -/
+theorem C21_mod_sound_partial (a b r : SI) (ha : a.WF) (hb : b.WF) (hbits : a.bits = b.bits) (hab : a.bottom = false)
     (hbb : b.bottom = false) (hal : b.Aligned) (h : a.mod b = .ok r) :
     (r.WF ∧ r.bits = a.bits) ∧ ∀ x y, a.mem x → b.mem y → y ≠ 0 → r.mem (Conc.urem a.bits x y) :=
   let g := mod_sound a.bits a b r ⟨ha, rfl⟩ ⟨hb, hbits.symm⟩ hab hbb hal h
